@@ -632,7 +632,7 @@ def vef_case(type_byte, ndata, squashed=None, first_byte=0):
         intr.update(extra["intr"])
 
         def run(path):
-            I = pysym.Interp(path, mod.__dict__, intr, 140)
+            I = pysym.Interp(path, mod.__dict__, intr, 140 if squashed is None else 420)  # the record loop of a squashed file runs 400 times
             env = [dict(args)]
             try:
                 I.block(node.body, env)
